@@ -5,6 +5,7 @@
 package mocker
 
 import (
+	"fmt"
 	"reflect"
 
 	"github.com/tencent/goom/arg"
@@ -196,11 +197,19 @@ func (w *When) Returns(values ...interface{}) *When {
 		return w
 	}
 
+	// 先校验全部返回值, 保证被拒绝的调用不会留下部分生效的配置
+	rets := make([][]interface{}, len(values))
 	for i, v := range values {
 		ret, ok := v.([]interface{})
 		if !ok {
 			ret = []interface{}{v}
 		}
+		if _, err := arg.I2V(ret, outTypes(w.funcTyp), false); err != nil {
+			panic("Return Value (" + fmt.Sprintf("%v", ret) + ") error: " + err.Error())
+		}
+		rets[i] = ret
+	}
+	for i, ret := range rets {
 		if i == 0 {
 			w.Return(ret...)
 		} else {
